@@ -104,6 +104,14 @@ theorem redirected_roots (f : CId → CId) (t : Tr) (agg : Bool) (R : List CId)
   obtain ⟨d, hd, rfl⟩ := List.mem_map.1 hc
   exact List.mem_map.2 ⟨d, h d hd, rfl⟩
 
+/-- **preceding_is_wellformed.** What stays in front, closed by the Select of the missing columns, is again a
+well-formed input of `extract_atomic` with the missing columns as its output. The compiler calls `extract_atomic` on
+exactly this pipeline when it compiles the sub-query, so the scope theorems apply at every level of the recursion, for
+any number of nested sub-queries / CTEs. -/
+theorem preceding_is_wellformed (decls : List Comp) (p : List Tr) (out : List CId) (hwf : wfPipe p out = true) :
+    wfPipe ((splitOffBack decls p out).rest ++ [.select (splitOffBack decls p out).missing])
+      (splitOffBack decls p out).missing = true := preceding_wf decls p out hwf
+
 /-- the executable summary used as a monitor on the real pipelines agrees with the theorem -/
 theorem split_closed_monitor (decls : List Comp) (p : List Tr) (out : List CId) (hwf : wfPipe p out = true) :
     splitClosedB decls p out = true := splitClosedB_of_wf decls p out hwf
